@@ -3,7 +3,8 @@
 # worktree of /repo; demo exits 0 on the clean tree and non-zero on the changed tree; the existing test
 # suite (minus the 3 tests failing on the pinned tree) passes with the change.  Results -> seeded/<id>/confirmed.json
 cd "$(dirname "$0")/.." || exit 2
-W=/tmp/confirm-wt
+W=${W:-/tmp/confirm-wt}   # set W=<dir> to run several confirmations side by side
+T=$W.logs; mkdir -p $T
 export OMP_NUM_THREADS=1 OPENBLAS_NUM_THREADS=1 MKL_NUM_THREADS=1 MPLBACKEND=Agg
 git -C /repo worktree remove --force $W 2>/dev/null
 git -C /repo worktree add -q $W HEAD || exit 2
@@ -12,18 +13,18 @@ for d in ${SEEDS:-seeded/C*/}; do
   [ -f $d/patch.diff ] || continue
   [ -f $d/confirmed.json ] && [ -z "$FORCE" ] && continue
   git -C $W checkout -q -- . ; git -C $W clean -qfd
-  PYTHONPATH=$W /venv/bin/python $d/demo.py > /tmp/confirm-demo-clean.log 2>&1; dc=$?
-  if git -C $W apply $PWD/$d/patch.diff 2>/tmp/confirm-apply.log; then ap=0; else ap=1; fi
-  PYTHONPATH=$W /venv/bin/python $d/demo.py > /tmp/confirm-demo-mut.log 2>&1; dm=$?
+  PYTHONPATH=$W /venv/bin/python $d/demo.py > $T/demo-clean.log 2>&1; dc=$?
+  if git -C $W apply $PWD/$d/patch.diff 2>$T/apply.log; then ap=0; else ap=1; fi
+  PYTHONPATH=$W /venv/bin/python $d/demo.py > $T/demo-mut.log 2>&1; dm=$?
   if [ "$1" = "--no-tests" ]; then tests="skipped"; trc=-1; else
   (cd $W && PYTHONPATH=$W timeout 3000 /venv/bin/python -m pytest -q -p no:cacheprovider --timeout=1500 tests \
      --deselect tests/test_plotting.py::PlottingTest::test_plot_filter_function \
      --deselect tests/test_plotting.py::PlottingTest::test_plot_pulse_correlation_filter_function \
-     --deselect tests/test_plotting.py::PlottingTest::test_plot_pulse_train > /tmp/confirm-tests.log 2>&1); trc=$?
-  tests=$(tail -1 /tmp/confirm-tests.log | tr -d '=' | sed 's/^ *//;s/ *$//'); fi
-  msg=$(tail -2 /tmp/confirm-demo-mut.log | tr '\n"' '  ' | cut -c1-200)
+     --deselect tests/test_plotting.py::PlottingTest::test_plot_pulse_train > $T/tests.log 2>&1); trc=$?
+  tests=$(tail -1 $T/tests.log | tr -d '=' | sed 's/^ *//;s/ *$//'); fi
+  msg=$(tail -2 $T/demo-mut.log | tr '\n"' '  ' | cut -c1-200)
   printf '{"patch_applies": %s, "demo_clean_rc": %s, "demo_mutated_rc": %s, "tests_rc": %s, "tests": "%s", "demo_mutated_msg": "%s", "head": "%s"}\n' \
      $([ $ap = 0 ] && echo true || echo false) $dc $dm $trc "$tests" "$msg" "$(git -C /repo rev-parse --short HEAD)" > $d/confirmed.json
   echo "$id apply=$ap demo_clean=$dc demo_mut=$dm tests_rc=$trc $tests"
 done
-git -C /repo worktree remove --force $W
+git -C /repo worktree remove --force $W; rm -rf $T
